@@ -3,6 +3,7 @@ import BigtreeModel.Newick
 import BigtreeProofs.Lemmas.ExportRoundtrip
 import BigtreeProofs.Lemmas.ExportRows
 import BigtreeProofs.Lemmas.NewickRoundtrip
+import BigtreeProofs.Lemmas.NewickAttrs
 /-!
 # C06 — exports are complete; export ∘ import = identity
 
@@ -183,6 +184,31 @@ theorem newick_roundtrip (t : Tree) (isRoot : Bool) (la pre : Str)
   have hq : Newick.chars.quote = '\'' := newick_table_ok.2.2.2.2.2.2.1
   exact Newick.parse_ws Newick.chars newick_table_ok la pre t ⟨h1, by rw [hq]; exact h2⟩
 
+/-- The length / attribute variant: with `length_attr = la`, `attr_list = al`, `attr_prefix = pre`
+(and `:` as both separators) the writer is defined and the parser — given the same `la`, `pre` —
+returns `img la al isRoot t`: the same names, shape and sibling order, each non-root node carrying
+its length and every node its listed truthy attributes (in list order). Hypotheses: lengths are
+positive integers, listed attribute names are non-empty and `'`-free, listed truthy values are
+`'`-free strings (names, keys and values containing any of the other special characters are
+written quoted and are read back verbatim). -/
+theorem newick_roundtrip_attrs (t : Tree) (isRoot : Bool) (la pre : Str) (al : List Str)
+    (h1 : AllNodes NodeOK t) (h2 : AllNodes (fun u => '\'' ∉ u.name) t)
+    (h3 : (isRoot = false → Newick.LenNode la t) ∧ AllNodesL (Newick.LenNode la) t.children)
+    (h4 : AllNodes (Newick.AttrNode '\'' al) t) :
+    ∃ w, Newick.write Newick.chars (Newick.stdW la al pre) isRoot t = some w ∧
+      Newick.parse Newick.chars la pre w = some (Newick.img la al isRoot t) := by
+  have hq : Newick.chars.quote = '\'' := newick_table_ok.2.2.2.2.2.2.1
+  have hlen : Newick.LenTop la isRoot t := by
+    refine ⟨?_, h3.2⟩
+    intro hL
+    rcases h3.1 hL.2 with e | e
+    · exact absurd e hL.1
+    · exact e
+  obtain ⟨w, hw⟩ := Newick.write_some Newick.chars la pre al t isRoot hlen
+  refine ⟨w, hw, ?_⟩
+  exact Newick.parse_write Newick.chars newick_table_ok la pre al t isRoot w
+    ⟨h1, by rw [hq]; exact h2⟩ hlen (by rw [hq]; exact h4) hw
+
 /-- the quoting rule: a name is written between quotes exactly when it contains one of the table's characters -/
 theorem newick_quoting (n : Str) :
     Newick.serialize Newick.chars n
@@ -199,5 +225,38 @@ example : Newick.write Newick.chars {} true exTree = some "((a)'b (c)',('b (c)')
 example : (Newick.write Newick.chars {} true exTree).bind (Newick.parse Newick.chars [] []) = some (Newick.namesOnly exTree) :=
   newick_roundtrip exTree true [] [] exTree_ok exTree_noquote
 example : Newick.parse Newick.chars "length".toList [] "(a,(b".toList = none := by decide
+
+/-- a tree with lengths and attributes, hostile keys and values -/
+def exTreeL : Tree :=
+  .node 1 "r".toList [("S".toList, .str "x:y".toList)] [
+    .node 2 "a b".toList [("L".toList, .int 12), ("S".toList, .str "[h]".toList), ("K=".toList, .str "v".toList)] [
+      .node 3 "c,d".toList [("L".toList, .int 7), ("S".toList, .str "".toList)] []],
+    .node 4 "e".toList [("L".toList, .int 305)] []]
+
+
+example : Newick.write Newick.chars (Newick.stdW "L".toList ["S".toList, "K=".toList] "&&NHX:".toList) true exTreeL
+    = some "(('c,d':7)a b:12[&&NHX:S='[h]':'K='=v],e:305)r[&&NHX:S='x:y']".toList := by decide
+example : Newick.img "L".toList ["S".toList, "K=".toList] true exTreeL =
+    .node 0 "r".toList [("S".toList, .str "x:y".toList)] [
+      .node 0 "a b".toList [("L".toList, .int 12), ("S".toList, .str "[h]".toList), ("K=".toList, .str "v".toList)] [
+        .node 0 "c,d".toList [("L".toList, .int 7)] []],
+      .node 0 "e".toList [("L".toList, .int 305)] []] := by decide
+
+theorem exTreeL_ok : AllNodes NodeOK exTreeL := by
+  simp [exTreeL, AllNodes, AllNodesL, NodeOK]
+theorem exTreeL_noquote : AllNodes (fun u => '\'' ∉ u.name) exTreeL := by
+  simp [exTreeL, AllNodes, AllNodesL]
+theorem exTreeL_len : (true = false → Newick.LenNode "L".toList exTreeL) ∧
+    AllNodesL (Newick.LenNode "L".toList) exTreeL.children := by
+  refine ⟨by simp, ?_⟩
+  simp only [exTreeL, Tree.children_node, AllNodesL, AllNodes, and_true]
+  exact ⟨⟨Or.inr ⟨12, by decide, by decide⟩, Or.inr ⟨7, by decide, by decide⟩⟩, Or.inr ⟨305, by decide, by decide⟩⟩
+theorem exTreeL_attr : AllNodes (Newick.AttrNode '\'' ["S".toList, "K=".toList]) exTreeL := by
+  simp only [exTreeL, AllNodes, AllNodesL, and_true]
+  refine ⟨?_, ⟨?_, ?_⟩, ?_⟩ <;> exact Newick.attrNode_of_check _ _ _ (by decide)
+example : ∃ w, Newick.write Newick.chars (Newick.stdW "L".toList ["S".toList, "K=".toList] "&&NHX:".toList) true exTreeL = some w ∧
+    Newick.parse Newick.chars "L".toList "&&NHX:".toList w
+      = some (Newick.img "L".toList ["S".toList, "K=".toList] true exTreeL) :=
+  newick_roundtrip_attrs exTreeL true _ _ _ exTreeL_ok exTreeL_noquote exTreeL_len exTreeL_attr
 
 end C06
